@@ -34,7 +34,7 @@ def run_p(seed, tier, replay=None):
                 break
     # dispatch order (priority queue)
     rp = common.run_streams([("p_prio", [seed, 400 if tier == "quick" else 8000, vlib.BUILD + "/prio-tmp"])])
-    pitems = [([b, args, idx], req, impl) for (b, args, idx, req, impl) in rp.cases]
+    pitems = [([b, args, idx], req, impl) for (b, args, idx, req, impl) in rp.cases if req.startswith("prio ")]
     pm, _ = common.compare(pitems, None)
     for m in pm:
         violations.append({"what": f"dispatch order differs from 'descending priority, then binary id, then test name': impl={m['impl'][:200]} spec={m['model'][:200]}",
